@@ -582,7 +582,18 @@ func (bpr *bpRequester) reset() {
 // Tells bpRequester to pick another peer and try again.
 // NOTE: Nonblocking, and does nothing if another redo
 // was already requested.
+// The block delivered by peerID (if any) is dropped at once: until the request
+// routine takes the redo, PeekTwoBlocks must not hand out the block of a removed
+// peer again (the reactor would verify the stale pair once more and stop whichever
+// peer the request has been re-assigned to in the meantime).
 func (bpr *bpRequester) redo(peerID p2p.ID) {
+	bpr.mtx.Lock()
+	if bpr.peerID == peerID && bpr.block != nil {
+		bpr.block = nil
+		atomic.AddInt32(&bpr.pool.numPending, 1)
+	}
+	bpr.mtx.Unlock()
+
 	select {
 	case bpr.redoCh <- peerID:
 	default:
